@@ -1,8 +1,296 @@
-//! swc AST -> the CF model's syntax (filled in with the M-CF model)
+//! swc AST -> the CF model's syntax.  The dumper is a swc `Visit` with exactly the overrides of
+//! `control_flow::Analyzer` (same `noop_visit_type!`), so that "what the default traversal reaches" is the same
+//! tree for both.  Also queries the real metadata at every position that occurs in the dump.
+use deno_ast::swc::ast::*;
+use deno_ast::swc::ecma_visit::{noop_visit_type, Visit, VisitWith};
+use deno_ast::swc::utils::{ExprCtx, ExprExt, Value as SwcValue};
+use deno_ast::{SourceRangedForSpanned, StartSourcePos};
 use deno_lint::context::Context;
-use deno_lint::Program;
-use serde_json::Value;
+use deno_lint::{Program, ProgramRef};
+use serde_json::{json, Value};
 
-pub fn dump<'v>(_ctx: &Context<'v>, _program: Program<'v>) -> Value {
-  Value::Null
+struct Dump {
+  kids: Vec<Value>,
+  base: StartSourcePos,
+  ectx: ExprCtx,
+  positions: Vec<usize>,
+}
+
+fn id_str(i: &Ident) -> String {
+  let (sym, ctxt) = i.to_id();
+  format!("{}#{}", sym, ctxt.as_u32())
+}
+
+impl Dump {
+  fn pos<T: SourceRangedForSpanned>(&mut self, n: &T) -> usize {
+    let p = n.start().as_byte_index(self.base);
+    self.positions.push(p);
+    p
+  }
+  fn capture<F: FnOnce(&mut Dump)>(&mut self, f: F) -> Vec<Value> {
+    let saved = std::mem::take(&mut self.kids);
+    f(self);
+    std::mem::replace(&mut self.kids, saved)
+  }
+  fn known_true(&self, e: &Expr) -> bool {
+    matches!(e.cast_to_bool(self.ectx), (_, SwcValue::Known(true)))
+  }
+  fn stmts(&mut self, ss: &[Stmt]) -> Vec<Value> {
+    ss.iter().map(|s| self.stmt(s)).collect()
+  }
+  fn stmt(&mut self, s: &Stmt) -> Value {
+    let p = self.pos(s);
+    match s {
+      Stmt::Block(b) => json!({"t": "block", "p": p, "body": self.stmts(&b.stmts)}),
+      Stmt::Empty(_) => json!({"t": "simple", "p": p, "tag": "empty", "kids": []}),
+      Stmt::If(n) => {
+        let test = self.capture(|d| n.test.visit_with(d));
+        let cons = self.stmt(&n.cons);
+        let alt = n.alt.as_ref().map(|a| self.stmt(a));
+        json!({"t": "if", "p": p, "test": test, "cons": cons, "alt": alt})
+      }
+      Stmt::While(n) => {
+        let test = self.capture(|d| n.test.visit_with(d));
+        let tt = self.known_true(&n.test);
+        let body = self.stmt(&n.body);
+        json!({"t": "while", "p": p, "test": test, "tt": tt, "body": body})
+      }
+      Stmt::DoWhile(n) => {
+        let test = self.capture(|d| n.test.visit_with(d));
+        let tt = self.known_true(&n.test);
+        let body = self.stmt(&n.body);
+        json!({"t": "dowhile", "p": p, "test": test, "tt": tt, "body": body})
+      }
+      Stmt::For(n) => {
+        let init = self.capture(|d| n.init.visit_with(d));
+        let update = self.capture(|d| n.update.visit_with(d));
+        let test = self.capture(|d| n.test.visit_with(d));
+        let tt = n.test.as_ref().map(|t| self.known_true(t)).unwrap_or(false);
+        let body = self.stmt(&n.body);
+        json!({"t": "for", "p": p, "init": init, "update": update, "test": test, "hasTest": n.test.is_some(), "tt": tt, "body": body})
+      }
+      Stmt::ForIn(n) => {
+        let left = self.capture(|d| n.left.visit_with(d));
+        let right = self.capture(|d| n.right.visit_with(d));
+        let body = self.stmt(&n.body);
+        json!({"t": "forinof", "p": p, "left": left, "right": right, "body": body})
+      }
+      Stmt::ForOf(n) => {
+        let left = self.capture(|d| n.left.visit_with(d));
+        let right = self.capture(|d| n.right.visit_with(d));
+        let body = self.stmt(&n.body);
+        json!({"t": "forinof", "p": p, "left": left, "right": right, "body": body})
+      }
+      Stmt::Switch(n) => {
+        let disc = self.capture(|d| n.discriminant.visit_with(d));
+        let cases: Vec<Value> = n
+          .cases
+          .iter()
+          .map(|c| {
+            let cp = self.pos(c);
+            let test = self.capture(|d| c.test.visit_with(d));
+            json!({"p": cp, "def": c.test.is_none(), "test": test, "body": self.stmts(&c.cons)})
+          })
+          .collect();
+        json!({"t": "switch", "p": p, "disc": disc, "cases": cases})
+      }
+      Stmt::Try(n) => {
+        let bp = self.pos(&n.block);
+        let block = self.stmts(&n.block.stmts);
+        let handler = n.handler.as_ref().map(|h| {
+          let hp = self.pos(h);
+          let kids = self.capture(|d| h.visit_children_with(d));
+          json!({"p": hp, "kids": kids})
+        });
+        let fin = n.finalizer.as_ref().map(|f| {
+          let fp = self.pos(f);
+          json!({"p": fp, "body": self.stmts(&f.stmts)})
+        });
+        json!({"t": "try", "p": p, "bp": bp, "block": block, "handler": handler, "fin": fin})
+      }
+      Stmt::Labeled(n) => {
+        let body = self.stmt(&n.body);
+        json!({"t": "labeled", "p": p, "label": id_str(&n.label), "body": body})
+      }
+      Stmt::Break(n) => json!({"t": "break", "p": p, "label": n.label.as_ref().map(id_str)}),
+      Stmt::Continue(n) => json!({"t": "continue", "p": p, "label": n.label.as_ref().map(id_str)}),
+      Stmt::Return(n) => {
+        let arg = self.capture(|d| n.visit_children_with(d));
+        json!({"t": "return", "p": p, "arg": arg})
+      }
+      Stmt::Throw(n) => {
+        let arg = self.capture(|d| n.visit_children_with(d));
+        json!({"t": "throw", "p": p, "arg": arg})
+      }
+      other => {
+        let tag = match other {
+          Stmt::Decl(Decl::Fn(f)) => format!("fn:{}", id_str(&f.ident)),
+          Stmt::Decl(Decl::Var(v)) if v.kind == VarDeclKind::Var && v.decls.iter().all(|d| d.init.is_none()) => "varnoinit".to_string(),
+          Stmt::Decl(Decl::TsInterface(_)) | Stmt::Decl(Decl::TsTypeAlias(_)) | Stmt::Decl(Decl::TsModule(_)) => "ts".to_string(),
+          Stmt::Decl(_) => "decl".to_string(),
+          Stmt::Expr(_) => "expr".to_string(),
+          _ => "other".to_string(),
+        };
+        let kids = self.capture(|d| other.visit_children_with(d));
+        json!({"t": "simple", "p": p, "tag": tag, "kids": kids})
+      }
+    }
+  }
+  fn fn_scope<T: SourceRangedForSpanned + VisitWith<Dump>>(&mut self, n: &T) {
+    let p = self.pos(n);
+    let kids = self.capture(|d| n.visit_children_with(d));
+    self.kids.push(json!({"k": "fn", "p": p, "kids": kids}));
+  }
+}
+
+impl Visit for Dump {
+  noop_visit_type!();
+
+  fn visit_stmt(&mut self, s: &Stmt) {
+    let v = self.stmt(s);
+    self.kids.push(json!({"k": "stmt", "s": v}));
+  }
+  fn visit_block_stmt(&mut self, b: &BlockStmt) {
+    let p = self.pos(b);
+    let body = self.stmts(&b.stmts);
+    self.kids.push(json!({"k": "block", "p": p, "body": body}));
+  }
+  fn visit_expr(&mut self, e: &Expr) {
+    let kids = self.capture(|d| e.visit_children_with(d));
+    let kind = match e {
+      Expr::Ident(i) => format!("ident:{}", id_str(i)),
+      Expr::This(_) => "this".to_string(),
+      _ => "other".to_string(),
+    };
+    self.kids.push(json!({"k": "expr", "e": kind, "kids": kids}));
+  }
+  fn visit_member_expr(&mut self, n: &MemberExpr) {
+    n.obj.visit_with(self);
+    if let MemberProp::Computed(c) = &n.prop {
+      c.visit_with(self);
+    }
+  }
+  fn visit_arrow_expr(&mut self, n: &ArrowExpr) {
+    self.fn_scope(n);
+  }
+  fn visit_function(&mut self, n: &Function) {
+    self.fn_scope(n);
+  }
+  fn visit_constructor(&mut self, n: &Constructor) {
+    self.fn_scope(n);
+  }
+  fn visit_getter_prop(&mut self, n: &GetterProp) {
+    self.fn_scope(n);
+  }
+  fn visit_setter_prop(&mut self, n: &SetterProp) {
+    self.fn_scope(n);
+  }
+}
+
+fn canon_meta(dbg: &str) -> String {
+  // Metadata { unreachable: false, end: Some(Forced { ret: true, throw: false, infinite_loop: false }) }
+  let u = if dbg.contains("unreachable: true") { "u1" } else { "u0" };
+  let e = if dbg.contains("end: None") {
+    "-".to_string()
+  } else if dbg.contains("Forced") {
+    let b = |k: &str| if dbg.contains(&format!("{}: true", k)) { '1' } else { '0' };
+    format!("F{}{}{}", b("ret"), b("throw"), b("infinite_loop"))
+  } else if dbg.contains("Break") {
+    "B".to_string()
+  } else if dbg.contains("Continue") {
+    "C".to_string()
+  } else {
+    format!("?{}", dbg)
+  };
+  format!("{} {}", u, e)
+}
+
+/// getters and switch cases with what the two rules look at besides the metadata
+struct Extra<'a, 'v> {
+  ctx: &'a Context<'v>,
+  base: StartSourcePos,
+  ectx: ExprCtx,
+  getters: Vec<Value>,
+  cases: Vec<Value>,
+}
+fn allow_ft<'c>(mut comments: impl Iterator<Item = &'c deno_ast::swc::common::comments::Comment>) -> bool {
+  comments.any(|c| {
+    let l = c.text.to_ascii_lowercase();
+    l.contains("fallthrough") || l.contains("falls through") || l.contains("fall through")
+  })
+}
+impl Extra<'_, '_> {
+  fn body(&self, stmts: &[Stmt]) -> Vec<Value> {
+    let mut d = Dump { kids: vec![], base: self.base, ectx: self.ectx, positions: vec![] };
+    d.stmts(stmts)
+  }
+}
+impl Visit for Extra<'_, '_> {
+  noop_visit_type!();
+  fn visit_class_method(&mut self, n: &ClassMethod) {
+    if n.kind == MethodKind::Getter {
+      if let Some(b) = &n.function.body {
+        self.getters.push(json!({"at": n.start().as_byte_index(self.base), "bodyp": b.start().as_byte_index(self.base), "body": self.body(&b.stmts)}));
+      }
+    }
+    n.visit_children_with(self);
+  }
+  fn visit_getter_prop(&mut self, n: &GetterProp) {
+    if let Some(b) = &n.body {
+      self.getters.push(json!({"at": n.start().as_byte_index(self.base), "bodyp": b.start().as_byte_index(self.base), "body": self.body(&b.stmts)}));
+    }
+    n.visit_children_with(self);
+  }
+  fn visit_switch_stmt(&mut self, n: &SwitchStmt) {
+    for (i, c) in n.cases.iter().enumerate() {
+      if i + 1 == n.cases.len() {
+        break;
+      }
+      let next = &n.cases[i + 1];
+      let mut ft = allow_ft(self.ctx.leading_comments_at(next.start()));
+      if let Some(last) = c.cons.last() {
+        ft = ft || allow_ft(self.ctx.trailing_comments_at(last.end()));
+      }
+      let empty = c.cons.is_empty() || matches!(c.cons.as_slice(), [Stmt::Block(b)] if b.stmts.is_empty());
+      self.cases.push(json!({"p": c.start().as_byte_index(self.base), "body": self.body(&c.cons), "empty": empty, "ft": ft}));
+    }
+    n.visit_children_with(self);
+  }
+}
+
+/// returns {"prog": <model syntax>, "query": [positions], "meta": {pos: canonical metadata}, "getters", "cases"}
+pub fn dump<'v>(ctx: &Context<'v>, program: Program<'v>) -> Value {
+  let base = ctx.text_info().range().start;
+  let ectx = ExprCtx { unresolved_ctxt: ctx.parsed_source().unresolved_context(), is_unresolved_ref_safe: false, in_strict: true, remaining_depth: 4 };
+  let mut d = Dump { kids: vec![], base, ectx, positions: vec![] };
+  let (is_module, items): (bool, Vec<Value>) = match deno_lint::rules::program_ref(program) {
+    ProgramRef::Module(m) => (
+      true,
+      m.body
+        .iter()
+        .map(|it| match it {
+          ModuleItem::Stmt(s) => json!({"i": "stmt", "s": d.stmt(s)}),
+          ModuleItem::ModuleDecl(md) => {
+            let kids = d.capture(|dd| md.visit_children_with(dd));
+            json!({"i": "decl", "kids": kids})
+          }
+        })
+        .collect(),
+    ),
+    ProgramRef::Script(s) => (false, s.body.iter().map(|st| json!({"i": "stmt", "s": d.stmt(st)})).collect()),
+  };
+  let mut q = d.positions.clone();
+  q.sort();
+  q.dedup();
+  let mut meta = serde_json::Map::new();
+  for p in &q {
+    let m = ctx.control_flow().meta(base + *p);
+    meta.insert(p.to_string(), json!(m.map(|m| canon_meta(&format!("{:?}", m))).unwrap_or_else(|| "absent".to_string())));
+  }
+  let mut ex = Extra { ctx, base, ectx, getters: vec![], cases: vec![] };
+  match deno_lint::rules::program_ref(program) {
+    ProgramRef::Module(m) => m.visit_with(&mut ex),
+    ProgramRef::Script(s) => s.visit_with(&mut ex),
+  }
+  json!({"prog": {"module": is_module, "items": items}, "query": q, "meta": meta, "getters": ex.getters, "cases": ex.cases})
 }
